@@ -44,10 +44,10 @@ impl Property for C12 {
         "C12"
     }
     fn rule(&self) -> String {
-        "sessions over a root r.td that includes i.td, where disk texts and editor buffers differ observably (each variant of i.td declares a differently named class, each variant of r.td uses one buffer class and the disk class, so outline and 'class not found' diagnostics reveal which text was analysed). Events: open/change of r.td or i.td with one of two buffer variants (a change of an unopened document is an open), close of either document (the disk is the truth again; checked at the next analysed step), a touch of an unrelated third document (root of a workspace without r.td and i.td), a change of r.td to a text without its include, and didSave of either document (no effect on which text is the truth; the disk keeps differing from the buffer, as after an external rewrite): every sequence of length <= 4 (thorough <= 5) over the 4 (document, variant) events, 2 closes, 2 saves and the 2 workspace-leaving events exhaustively, each with i.td present on disk, with i.td never saved (no file on disk), and with an i.td that includes r.td back (include cycle through every edited document) and - sequences of length <= 3 (thorough <= 4) - in a workspace directory the editor reaches through a symbolic link. Reference session model: texts = disk overlaid by the buffers of opened documents, root = last touched document. After every step the last published diagnostics of every file of the model's workspace and the documentSymbol answer of every open document in it must equal a fresh ide-level analysis over the model's texts. distinct = digest of the event sequence; non-trivial = a step at which an open included document's buffer differs from disk while the other document is (re)analysed".into()
+        "sessions over a root r.td that includes i.td, where disk texts and editor buffers differ observably (each variant of i.td declares a differently named class, each variant of r.td uses one buffer class and the disk class, so outline and 'class not found' diagnostics reveal which text was analysed). Events: open/change of r.td or i.td with one of two buffer variants (a change of an unopened document is an open), close of either document (the disk is the truth again; checked at the next analysed step), a touch of an unrelated third document (root of a workspace without r.td and i.td), a change of r.td to a text without its include, and didSave of either document (no effect on which text is the truth; the disk keeps differing from the buffer, as after an external rewrite): every sequence of length <= 4 (thorough <= 5) over the 4 (document, variant) events, 2 closes, 2 saves and the 2 workspace-leaving events exhaustively, each with i.td present on disk, with i.td never saved (no file on disk), and with an i.td that includes r.td back (include cycle through every edited document) and - sequences of length <= 3 (thorough <= 4) - in a workspace directory the editor reaches through a symbolic link, and while another program rewrites both files on disk after every analysed step (buffer variant 0 then being the text on disk at that moment: a document opened unmodified). Reference session model: texts = disk overlaid by the buffers of opened documents, root = last touched document. After every step the last published diagnostics of every file of the model's workspace and the documentSymbol answer of every open document in it must equal a fresh ide-level analysis over the model's texts. distinct = digest of the event sequence; non-trivial = a step at which an open included document's buffer differs from disk while the other document is (re)analysed".into()
     }
     fn assumptions(&self) -> Vec<String> {
-        vec!["the disk is never modified during a session; the model takes the last touched document as root because that is what didOpen/didChange do; a close triggers no analysis, so its effect is observed at the next open/change".into()]
+        vec!["the disk is modified during a session only in the external-writes flavour (then after an analysed step, never during one); the model takes the last touched document as root because that is what didOpen/didChange do; a close triggers no analysis, so its effect is observed at the next open/change".into()]
     }
     fn families(&self, ctx: &Ctx) -> Vec<Family> {
         let maxlen = ctx.tier.pick(4usize, 5usize);
@@ -87,6 +87,12 @@ impl Property for C12 {
                     if len <= symlinked_upto && !emit(json!({"kind": "buffer-session", "events": ev, "symlinked": true})) {
                         return;
                     }
+                    // the same session while another program keeps rewriting both files on disk (after every
+                    // analysed step), and where buffer variant 0 is the text that is on disk at that moment
+                    // (a document opened unmodified): an open document is its buffer all the same
+                    if len <= symlinked_upto && !emit(json!({"kind": "buffer-session", "events": ev, "external_writes": true})) {
+                        return;
+                    }
                     let mut k = len;
                     let mut done = false;
                     loop {
@@ -123,6 +129,9 @@ impl Property for C12 {
             s.tw.write("i.td", disk_i);
             model.insert("i.td".into(), disk_i.into());
         }
+        let external = case["external_writes"].as_bool() == Some(true);
+        let mut disk: BTreeMap<String, String> = model.clone();
+        let mut writes = 0;
         let mut nontrivial = false;
         let mut verdict = None;
         for (step, ev) in events.iter().enumerate() {
@@ -156,24 +165,27 @@ impl Property for C12 {
                 // close: the disk is the truth again for that document; nothing is re-analysed now
                 if s.opened.contains(name(doc)) {
                     s.close(name(doc));
-                    match (doc, no_disk_i) {
-                        (0, _) => {
-                            model.insert("r.td".into(), DISK_R.into());
+                    match disk.get(name(doc)) {
+                        Some(t) => {
+                            model.insert(name(doc).into(), t.clone());
                         }
-                        (_, false) => {
-                            model.insert("i.td".into(), disk_i.into());
-                        }
-                        (_, true) => {
-                            model.remove("i.td");
+                        None => {
+                            model.remove(name(doc));
                         }
                     }
                 }
                 continue;
             }
             // variant 4 (of r.td only): the buffer without its include line - i.td leaves the workspace
-            let text = if b == 4 { "def r_alone;\n".to_string() } else { buffer_text_in(doc, b, cyclic) };
+            let text = if b == 4 {
+                "def r_alone;\n".to_string()
+            } else if external && b == 0 && disk.contains_key(name(doc)) {
+                disk[name(doc)].clone()
+            } else {
+                buffer_text_in(doc, b, cyclic)
+            };
             let doc = if b == 4 { 0 } else { doc };
-            if doc == 0 && s.opened.contains("i.td") && model.get("i.td").map(|t| t != disk_i).unwrap_or(false) {
+            if doc == 0 && s.opened.contains("i.td") && model.get("i.td") != disk.get("i.td") {
                 nontrivial = true;
             }
             model.insert(name(doc).to_string(), text.clone());
@@ -193,8 +205,26 @@ impl Property for C12 {
                         Some(which) => ("C12.diagnostics-not-from-buffers", format!("C12.diagnostics-not-from-buffers:{which}")),
                         None => ("C12.outline-not-from-buffers", "C12.outline-not-from-buffers".to_string()),
                     };
-                    verdict = Some(Verdict::Fail(Failure::new(oracle, sig, format!("events {} step {step}: {detail} (texts = disk overlaid by open buffers)", case["events"]))));
+                    verdict = Some(Verdict::Fail(Failure::new(oracle, sig, format!("events {} step {step}{}: {detail} (texts = disk overlaid by open buffers)", case["events"], if external { format!(" ({writes} external rewrites of the files so far)") } else { String::new() }))));
                     break;
+                }
+            }
+            if external {
+                // another program rewrites both files; nobody tells the server. Documents that are not open
+                // are what is on disk (seen at the next analysed step), open ones stay their buffers.
+                writes += 1;
+                let new_r = if writes % 2 == 1 { "include \"i.td\"\ndef r_disk_b : DiskI;\ndef r_disk_j : DiskJ;\n" } else { DISK_R };
+                let new_i = match (writes % 2 == 1, cyclic) {
+                    (true, false) => "class DiskJ { int a = 1; }\n".to_string(),
+                    (true, true) => "include \"r.td\"\nclass DiskJ { int a = 1; }\n".to_string(),
+                    (false, _) => disk_i.to_string(),
+                };
+                for (n, t) in [("r.td", new_r.to_string()), ("i.td", new_i)] {
+                    s.tw.write(n, &t);
+                    disk.insert(n.to_string(), t.clone());
+                    if !s.opened.contains(n) {
+                        model.insert(n.to_string(), t);
+                    }
                 }
             }
         }
